@@ -13,7 +13,7 @@
   any supplier table) and EVERY schedule `sched : List Nat` — any poll order, including spurious
   polls of tasks that cannot progress and polls of ids that are no task.
 -/
-import MdProofs.Lemmas.OnceWake
+import MdProofs.Lemmas.OnceReq
 namespace MdModel.Once
 open MdModel
 
@@ -225,5 +225,136 @@ example :
     let cfg : Cfg := ⟨[[5], [5], [5]], fun _ => ⟨1, .notFound⟩⟩
     let s := exec cfg [0, 1, 2, 0] (init cfg)
     allFin cfg s = false ∧ runnable cfg s = [1] ∧ runnable cfg (poll cfg 1 s) = [2] := by decide
+
+/-! ## 7. Programs whose continuation depends on what a lookup observed (`MdModel.OnceG`)
+
+  `MultiSymbolProvider::walk_frame` decides from the answer it has just received whether it
+  consults the next provider. `MdModel.OnceG` is the machine of sections 1–6 over such programs:
+  an item names a cache slot and how many following items are dropped when the observed result
+  is `ok`. The decision is taken from the OBSERVED value. `g_simulation`: for every schedule it is
+  in lock step with the machine of sections 1–6 on the statically compiled programs — so
+  everything proved above holds for it. -/
+
+/-- **C12.7** simulation, for every configuration and every schedule -/
+theorem g_simulation (cfg : ICfg) (sched : List Nat) :
+    absS cfg (gexec cfg sched (ginit cfg)) = exec (compile cfg) sched (init (compile cfg)) :=
+  sim_exec cfg sched
+
+theorem g_doneOk (cfg : ICfg) (sched : List Nat) : DoneOk cfg (gexec cfg sched (ginit cfg)) :=
+  doneOk_gexec sched (doneOk_ginit cfg)
+
+/-- the measure of the dynamic machine: that of the compiled configuration -/
+def gmeasure (cfg : ICfg) (s : GState) : Nat := measure (compile cfg) (absS cfg s)
+
+/-- **C12.7a** at most one supplier call per slot -/
+theorem g_at_most_once (cfg : ICfg) (sched : List Nat) (k : Nat) :
+    callCount k (gexec cfg sched (ginit cfg)).log ≤ 1 := by
+  rw [sim_log]; exact at_most_once (compile cfg) sched k
+
+/-- **C12.7b** what a requester observes is the supplier's outcome for that slot; hence agreement -/
+theorem g_remembered_outcome (cfg : ICfg) (sched : List Nat) (t k : Nat) (r : Res)
+    (hm : Event.seen t k r ∈ (gexec cfg sched (ginit cfg)).log) : r = cfg.outcome k := by
+  rw [sim_log] at hm; exact remembered_outcome (compile cfg) sched t k r hm
+
+theorem g_agreement (cfg : ICfg) (sched : List Nat) (t₁ t₂ k : Nat) (r₁ r₂ : Res)
+    (h₁ : Event.seen t₁ k r₁ ∈ (gexec cfg sched (ginit cfg)).log)
+    (h₂ : Event.seen t₂ k r₂ ∈ (gexec cfg sched (ginit cfg)).log) : r₁ = r₂ := by
+  rw [g_remembered_outcome cfg sched t₁ k r₁ h₁, g_remembered_outcome cfg sched t₂ k r₂ h₂]
+
+/-- **C12.7c** a finished task has looked up exactly the statically compiled keys, each with the
+    supplier's outcome: the DYNAMIC choices coincide with the static reading, whatever the schedule -/
+theorem g_results_final (cfg : ICfg) (sched : List Nat) (t : Nat)
+    (hfin : gisFin (gexec cfg sched (ginit cfg)) t = true) :
+    seenBy t (gexec cfg sched (ginit cfg)).log =
+      (compS cfg 0 (cfg.prog t)).map (expected (compile cfg)) := by
+  rw [sim_isFin cfg, g_simulation] at hfin
+  rw [sim_log, results_final (compile cfg) sched t hfin, compile_prog]
+
+theorem g_results_schedule_free (cfg : ICfg) (sched₁ sched₂ : List Nat) (t : Nat)
+    (h₁ : gisFin (gexec cfg sched₁ (ginit cfg)) t = true)
+    (h₂ : gisFin (gexec cfg sched₂ (ginit cfg)) t = true) :
+    seenBy t (gexec cfg sched₁ (ginit cfg)).log = seenBy t (gexec cfg sched₂ (ginit cfg)).log := by
+  rw [g_results_final cfg sched₁ t h₁, g_results_final cfg sched₂ t h₂]
+
+/-- **C12.7d** progress and no lost wake-up -/
+theorem g_no_lost_wakeup (cfg : ICfg) (sched : List Nat)
+    (hnf : gallFin cfg (gexec cfg sched (ginit cfg)) = false) :
+    ∃ t, t < cfg.ntasks ∧ ((gexec cfg sched (ginit cfg)).task t).woken = true ∧
+      gisFin (gexec cfg sched (ginit cfg)) t = false ∧
+      gmeasure cfg (gpoll cfg t (gexec cfg sched (ginit cfg))) <
+        gmeasure cfg (gexec cfg sched (ginit cfg)) := by
+  rw [sim_allFin, g_simulation] at hnf
+  obtain ⟨t, ht, hw, hf, hm⟩ := no_lost_wakeup (compile cfg) sched hnf
+  refine ⟨t, by simpa using ht, ?_, ?_, ?_⟩
+  · rw [← g_simulation] at hw; simpa using hw
+  · rw [sim_isFin cfg, g_simulation]; exact hf
+  · unfold gmeasure
+    rw [sim_gpoll cfg t (g_doneOk cfg sched), g_simulation]
+    exact hm
+
+theorem g_runnable_nonempty (cfg : ICfg) (sched : List Nat)
+    (hnf : gallFin cfg (gexec cfg sched (ginit cfg)) = false) :
+    grunnable cfg (gexec cfg sched (ginit cfg)) ≠ [] := by
+  rw [sim_allFin, g_simulation] at hnf
+  rw [sim_runnable, g_simulation]
+  exact runnable_nonempty (compile cfg) sched hnf
+
+/-- **C12.7e** the round-robin completion phase of the driver ends with every task finished, after
+    any schedule; and so does any fair continuation -/
+theorem g_round_robin_finishes (cfg : ICfg) (sched : List Nat) :
+    gallFin cfg (gfinish cfg (gfuel cfg) (gexec cfg sched (ginit cfg))) = true := by
+  rw [sim_allFin, (sim_gfinish cfg _ (g_doneOk cfg sched)).1, g_simulation]
+  exact round_robin_finishes (compile cfg) sched
+
+theorem gexec_append (cfg : ICfg) (a b : List Nat) (s : GState) :
+    gexec cfg (a ++ b) s = gexec cfg b (gexec cfg a s) := by
+  induction a generalizing s with
+  | nil => rfl
+  | cons t ts ih => simp only [List.cons_append, gexec]; exact ih _
+
+theorem g_fair_schedule_finishes (cfg : ICfg) (sched : List Nat) (rounds : List (List Nat))
+    (hfair : ∀ r ∈ rounds, ∀ t, t < cfg.ntasks → t ∈ r)
+    (hlen : gmeasure cfg (gexec cfg sched (ginit cfg)) ≤ rounds.length) :
+    gallFin cfg (gexec cfg (sched ++ rounds.flatten) (ginit cfg)) = true := by
+  rw [sim_allFin, g_simulation]
+  apply fair_schedule_finishes (compile cfg) sched rounds
+  · intro r hr t ht; exact hfair r hr t (by simpa using ht)
+  · unfold gmeasure at hlen; rw [g_simulation] at hlen; exact hlen
+
+/-- **C12.7f** once every task has finished, every slot some compiled program mentions has been
+    asked for EXACTLY once -/
+theorem g_exactly_once_final (cfg : ICfg) (sched : List Nat)
+    (hfin : gallFin cfg (gexec cfg sched (ginit cfg)) = true) (k : Nat)
+    (hk : k ∈ allKeys (compile cfg)) :
+    callCount k (gexec cfg sched (ginit cfg)).log = 1 := by
+  rw [sim_allFin, g_simulation] at hfin
+  rw [sim_log]
+  obtain ⟨r, hr⟩ := all_done_of_allFin (invA_reach (compile cfg) sched) hfin hk
+  have := (countInv_reach (compile cfg) sched k).1
+  rw [this, hr]; rfl
+
+/-- non-vacuity: two tasks walk key 0 through two providers (slots 0 and 1); provider 0 has no CFI
+    (its item skips nothing), provider 1 has (`skipOk` irrelevant, it is the last); a third item
+    (slot 2) follows. Task 1 is blocked on slot 0 while task 0 is inside the supplier; with
+    provider 0 GOOD (second configuration) slot 1 is never asked for. -/
+example :
+    let cfg : ICfg := ⟨[[⟨0, 0⟩, ⟨1, 0⟩, ⟨2, 0⟩], [⟨0, 0⟩, ⟨1, 0⟩]], fun _ => ⟨1, .ok⟩⟩
+    let s := gexec cfg [0, 1, 0, 1, 0, 1, 0, 1, 0, 0] (ginit cfg)
+    gallFin cfg s = true ∧ callCount 0 s.log = 1 ∧ callCount 1 s.log = 1 ∧
+      seenBy 1 s.log = [(0, .ok), (1, .ok)] := by decide
+
+example :
+    let cfg : ICfg := ⟨[[⟨0, 1⟩, ⟨1, 0⟩, ⟨2, 0⟩], [⟨0, 1⟩, ⟨1, 0⟩]], fun _ => ⟨1, .ok⟩⟩
+    let s := gexec cfg [0, 1, 0, 1, 0, 1, 0, 1, 0, 0] (ginit cfg)
+    gallFin cfg s = true ∧ callCount 0 s.log = 1 ∧ callCount 1 s.log = 0 ∧
+      seenBy 1 s.log = [(0, .ok)] ∧ compS cfg 0 (cfg.prog 0) = [0, 2] := by decide
+
+/-- the decision is dynamic: with a supplier that does NOT find the symbols the very same program
+    goes on to slot 1 -/
+example :
+    let cfg : ICfg := ⟨[[⟨0, 1⟩, ⟨1, 0⟩, ⟨2, 0⟩], [⟨0, 1⟩, ⟨1, 0⟩]], fun k => ⟨1, if k = 0 then .notFound else .ok⟩⟩
+    let s := gexec cfg [0, 1, 0, 1, 0, 1, 0, 1, 0, 0] (ginit cfg)
+    gallFin cfg s = true ∧ seenBy 1 s.log = [(0, .notFound), (1, .ok)] ∧
+      compS cfg 0 (cfg.prog 0) = [0, 1, 2] := by decide
 
 end MdModel.Once
